@@ -491,6 +491,10 @@ type TQTraceResult struct {
 	// superset it may show (when !Exact).
 	Spans []string
 	Exact bool
+	// Must: the spans the result has to show in any case: those matched by operands that
+	// certainly pass (a `||` shows every span matched by any passing operand; only the spans
+	// of an operand whose aggregate is don't-care, and what a `&&` shows, are undetermined).
+	Must []string
 	// Recent is the latest timestamp among Spans (recency key of the trace); RecentLo the
 	// latest among the spans that are certainly shown. They differ when an operand of `||`
 	// is don't-care: the recency key is then only known to lie in [RecentLo, Recent].
@@ -555,6 +559,10 @@ func EvalTraceQL(q *TQScript, db *TQDB, from, to int64, r TQReading) ([]TQTraceR
 			t.Spans = append(t.Spans, id)
 		}
 		sort.Strings(t.Spans)
+		for id := range res.Sure {
+			t.Must = append(t.Must, id)
+		}
+		sort.Strings(t.Must)
 		t.Recent, t.RecentLo = math.MinInt64, math.MinInt64
 		for i := range tr.Spans {
 			if res.Spans[tr.Spans[i].ID] && tr.Spans[i].TS > t.Recent {
@@ -613,6 +621,15 @@ func TQCheckSearchResult(ref []TQTraceResult, limit int, got map[string][]string
 		}
 		if len(gs) == 0 {
 			return fmt.Sprintf("trace %s returned without spans", id)
+		}
+		have := map[string]bool{}
+		for _, s := range gs {
+			have[s] = true
+		}
+		for _, s := range t.Must {
+			if !have[s] {
+				return fmt.Sprintf("trace %s: span %s matches a selector that selects the trace but is not returned (returned %v, matching spans %v)", id, s, gs, t.Spans)
+			}
 		}
 		if t.Exact && len(gs) != len(t.Spans) {
 			return fmt.Sprintf("trace %s: spans %v returned, matching spans are %v", id, gs, t.Spans)
